@@ -260,7 +260,8 @@ func (l *Lexer) readString(delimiter byte) string {
 
 	for {
 		l.ReadChar()
-		if l.CurrentChar == 0 {
+		if l.position >= len(l.input) {
+			// end of input (a NUL byte inside the literal is an ordinary character)
 			break
 		}
 		// Handle escape sequences
@@ -427,7 +428,8 @@ func (l *Lexer) readRawString() string {
 	var result strings.Builder
 	for {
 		l.ReadChar()
-		if l.CurrentChar == 0 {
+		if l.position >= len(l.input) {
+			// end of input (a NUL byte inside the literal is an ordinary character)
 			break
 		}
 		// Handle escaped backticks
